@@ -171,3 +171,18 @@ func ParseResponse(frame []byte) (*Response, error) {
 	}
 	return r, nil
 }
+
+// IsRequestShaped reports whether a frame has the RequestPacket layout (tag 5 is a string: the
+// servant name) rather than the ResponsePacket layout (tag 5 is the integer return code).  TUP
+// replies use the RequestPacket layout.
+func IsRequestShaped(frame []byte) bool {
+	if len(frame) < 4 {
+		return false
+	}
+	nodes, err := rc.ParseFields(frame[4:])
+	if err != nil {
+		return false
+	}
+	n := nodeByTag(nodes, 5)
+	return n != nil && (n.Type == rc.TString1 || n.Type == rc.TString4)
+}
